@@ -52,6 +52,8 @@ class Scenario:
                                        from_end=cfg.get("from_end", False), asynchronous=True, loop=IOLoop.current())
         elif k == "filenames":
             self.tmp = tempfile.mkdtemp(prefix="vsrc", dir=cfg.get("tmpdir"))
+            for d in cfg.get("predirs", []):
+                os.makedirs(os.path.join(self.tmp, d), exist_ok=True)
             src = Stream.filenames(os.path.join(self.tmp, cfg.get("pattern", "*.txt")), poll_interval=cfg["poll"], asynchronous=True, loop=IOLoop.current())
         else:
             raise ValueError(k)
